@@ -84,6 +84,15 @@ CLAIMED = {
         "technique": "machine-checked proof in Rocq (Coq 8.16) of the path-normalisation and link-resolution lemmas + direct file-system oracle and model correspondence",
         "design": "DESIGN.md §7 C12",
     },
+    "C13": {
+        "text": "PARTIAL. Rocq theorems on lists: C13_first_wins (among the files met in search order exactly the first loadable file of each name is used, no name twice -- an iff characterisation), "
+                "C13_dropin_shadowing (a drop-in name is provided by the first drop-in directory containing it), C13_dropin_dirs (drop-in directories are <search dir>/<unit file name>.d for every search dir, "
+                "then the template directories), C13_pinned_refuted. Directory traversal (read_dir/walkdir order, recursion into subdirectories), loading and merging are exercised end to end with "
+                "QUADLET_UNIT_DIRS layouts in which every unit and drop-in carries a marker label.",
+        "note": "Trusted: Coq kernel; the list models of Model/Dropins.v (tied only by the end-to-end oracle, not by a per-function differential run); sibling order inside one directory is unspecified and not constrained; symlinked directories not covered.",
+        "technique": "machine-checked proof in Rocq (Coq 8.16) of the shadowing algorithms + end-to-end oracle with marker files",
+        "design": "DESIGN.md §7 C13",
+    },
     "C14": {
         "text": "PARTIAL by nature. Rocq theorems over the filter logic on path components: C14_root (no directory at or below users/ is kept by the system generator) and C14_user (the user "
                 "generator keeps exactly users/, users/<non-numeric first component>/... and users/<own uid>/..., for every path and uid -- an equivalence with the independent Spec/Allowed.v), "
